@@ -26,6 +26,7 @@ func TypeKey(t types.Type) string {
 		if o.Pkg() == nil {
 			return o.Name()
 		}
+		oname := typeName(o)
 		pk := o.Pkg().Path()
 		if strings.HasPrefix(pk, ModPath) {
 			pk = relPkg(pk)
@@ -33,7 +34,7 @@ func TypeKey(t types.Type) string {
 				pk = "coercion"
 			}
 		}
-		return pk + "." + o.Name()
+		return pk + "." + oname
 	case *types.Alias:
 		return TypeKey(types.Unalias(tt))
 	}
